@@ -55,7 +55,7 @@ def gen_world_case(rng, n_types=28, max_depth=3):
         if e[0] == 4:
             extra.append(tf.exa(e[2]))
         if e[0] in (2, 3) and len(e) > 2:
-            args = [(None, x) for x in reversed(e[1:])]
+            extra.append((None, [e[0]] + list(reversed(e[1:]))))     # the same union / intersection with its members reversed
     # parametrised generics of one origin with different numbers of arguments sharing a covariant prefix
     for (o, e) in list(ts):
         if e[0] == 1 and e[1] == 6 and len(e) >= 3:
@@ -64,6 +64,18 @@ def gen_world_case(rng, n_types=28, max_depth=3):
                 extra.append((None, [1, 6] + e[2:-1]))                                # one fewer
             extra.append((None, [1, 1, e]))
             extra.append((None, [1, 1, [1, 6] + e[2:] + [[0, 0]]]))
+    # dependent_check types whose Any wildcards cross in unequal numbers (neither is more specific), and in nested position
+    import typing as _t
+    cids = [0, 2, 3] + w.user_ids()
+    if len(cids) >= 2:
+        x, y = rng.sample(cids, 2)
+        for kind in (2, 3):
+            extra += [(None, [kind, [0, x], [0, y]]), (None, [kind, [0, y], [0, x]])]
+    if rng.random() < 0.5:
+        a = tf.fn("HasKey", [_t.Any, _t.Any, "c"])
+        b = tf.fn("HasKey", ["a", "b", _t.Any])
+        c = tf.fn("HasKey", ["a", _t.Any, _t.Any])
+        extra += [a, b, c]
     encs = []
     seen = set()
 
